@@ -416,11 +416,15 @@ func (c *Ctx) definitelyAssigned(rule string, f *ssa.Function, resIdx int, varNa
 		return
 	}
 	var al *ssa.Alloc
-	allInstrs(f, func(_ *ssa.BasicBlock, i ssa.Instruction) {
-		if a, ok := i.(*ssa.Alloc); ok && a.Comment == varName {
-			al = a
-		}
-	})
+	// the local whose value is returned as the first result on a success exit (varName only labels the report)
+	for _, sp := range successPoints(f, resIdx) {
+		derivesFrom(retVal(sp.Ret, 0), func(v ssa.Value) bool {
+			if a, ok := v.(*ssa.Alloc); ok && al == nil {
+				al = a
+			}
+			return false
+		}, false)
+	}
 	key := fnName(f) + " result " + varName + " assigned on every success path"
 	if al == nil {
 		c.bad(rule, key, f.Pos(), "local variable "+varName+" not found (anchor moved?)")
